@@ -386,13 +386,21 @@ func (in *Interp) Join(a, b *Val) *Val {
 	switch {
 	case a.Cell == b.Cell && a.CSel == b.CSel:
 		r.Cell, r.CSel = a.Cell, a.CSel
+	case a.Cell == b.Cell && a.Cell != nil && baseSel(a.CSel) == baseSel(b.CSel):
+		r.Cell, r.CSel = a.Cell, a.CSel
+		if len(b.CSel) > len(a.CSel) {
+			r.CSel = b.CSel // the view that is marked as a sub-slice wins (conservative for coverage)
+		}
 	case a.Cell != nil && b.Cell == nil && len(b.Dir) == 0 && len(b.Kids) == 0:
 		r.Cell, r.CSel = a.Cell, a.CSel // nil-slice ⊔ slice
 	case b.Cell != nil && a.Cell == nil && len(a.Dir) == 0 && len(a.Kids) == 0:
 		r.Cell, r.CSel = b.Cell, b.CSel
-	case a.Cell != nil && b.Cell != nil && a.CSel == b.CSel:
+	case a.Cell != nil && b.Cell != nil && baseSel(a.CSel) == baseSel(b.CSel):
 		// a pointer to either of two cells: merge the cells (they are one abstract object from now on)
 		r.Cell, r.CSel = in.mergeCells(a.Cell, b.Cell), a.CSel
+		if len(b.CSel) > len(a.CSel) {
+			r.CSel = b.CSel
+		}
 	case a.Cell != nil && b.Cell != nil:
 		r.Cell, r.CSel = a.Cell, a.CSel
 		r.Deps = r.Deps.Or(in.AllDeps(b))
@@ -554,6 +562,23 @@ func selConstIndex(sel string) (int, bool) {
 }
 
 // splitSel splits a selector string ".a[3].b" into components.
+func baseSel(sel string) string {
+	if !strings.Contains(sel, "[s:") {
+		return sel
+	}
+	return strings.Join(dropSliceSels(splitSel(sel)), "")
+}
+
+func dropSliceSels(sels []string) []string {
+	out := sels[:0:0]
+	for _, s := range sels {
+		if !strings.HasPrefix(s, "[s:") {
+			out = append(out, s)
+		}
+	}
+	return out
+}
+
 func splitSel(s string) []string {
 	var out []string
 	i := 0
@@ -608,7 +633,7 @@ func (in *Interp) mergeCells(a, b *Cell) *Cell {
 func (in *Interp) cellRead(c *Cell, sel string) *Val {
 	c = c.find()
 	v := c.Content
-	for _, s := range splitSel(sel) {
+	for _, s := range dropSliceSels(splitSel(sel)) {
 		if v == nil {
 			break
 		}
@@ -629,7 +654,7 @@ func (in *Interp) cellWrite(c *Cell, sel string, x *Val) {
 	}
 	c = c.find()
 	before := in.FP(c.Content)
-	c.Content = in.writeAt(c.Content, splitSel(sel), x)
+	c.Content = in.writeAt(c.Content, dropSliceSels(splitSel(sel)), x)
 	if in.FP(c.Content) != before {
 		c.Ver++
 		in.markChanged(c.ID)
